@@ -493,10 +493,10 @@ func (v *Verifier) runCase(p *packages.Package, fc *FuncContract, decl *ast.Func
 		v.assumed["assume in "+v.fnName+": "+c.Text] = true
 	}
 	for _, c := range fc.Clauses {
-		if c.Loop == 0 && c.Kind == "unfold" {
+		if c.Loop == 0 && c.Kind == "unfold" && c.Where == "" {
 			v.applyUnfold(s, env.at(s, s), c)
 		}
-		if c.Loop == 0 && c.Kind == "use" {
+		if c.Loop == 0 && c.Kind == "use" && c.Where == "" {
 			v.applyUse(s, env.at(s, s), c, decl.Pos())
 		}
 	}
@@ -543,6 +543,9 @@ func (v *Verifier) runCase(p *packages.Package, fc *FuncContract, decl *ast.Func
 			// results must be visible to deferred closures through named results only: not modelled
 			v.runDefers(st)
 		}
+		for k, sn := range st.snaps {
+			v.oblige(st, "subset", fmt.Sprintf("interior-pointer.%d", k+1), And(Eq(v.loadPtr(st, sn.ref, sn.t), sn.val), Eq(v.eval(st, sn.expr), sn.val)), sn.pos, "the struct field whose address was taken (modelled as a copy) is not written through either name")
+		}
 		renv := env.at(st, v.entry)
 		renv = renv.bind("__dummy", CVal{TTrue, nil})
 		for k, r := range fc.Results {
@@ -577,7 +580,7 @@ func (v *Verifier) runCase(p *packages.Package, fc *FuncContract, decl *ast.Func
 // unusedAsserts reports ghost assertions whose marker statement was not found.
 func (v *Verifier) checkAssertMarkers() {
 	for _, c := range v.fc.Clauses {
-		if c.Kind == "assert" && !c.hit {
+		if (c.Kind == "assert" || c.Where != "") && !c.hit {
 			// a proof cut whose statement no longer exists is dropped (the proof then has to
 			// go through without it); reported in the evidence, not as a violation
 			v.notes = append(v.notes, "ghost assertion marker not found in "+v.fnName+": "+c.Marker)
